@@ -11,6 +11,15 @@ from .proto import Case, parse_output
 
 WORK = os.path.join(build.VERIF, ".work")
 MODELLED_KINDS = {"kzg10", "c16"}   # case kinds for which the extracted model must answer
+MODELLED_PC_SCHEMES = {"marlin"}
+
+
+def is_modelled(c):
+    if c.kind in MODELLED_KINDS:
+        return True
+    if c.kind == "pc":
+        return c.fields.get("scheme", [""])[0] in MODELLED_PC_SCHEMES and "beta" in c.fields
+    return False
 
 
 def _run_to_text(cmd, timeout, env=None, input=None):
@@ -104,7 +113,7 @@ class Engine:
             if "runner_exception" in mo:
                 diffs.append({"case": c.id, "name": "runner_exception", "lib": "", "model": " ".join(mo["runner_exception"][1])})
             names = list(mo.keys())   # the model decides what is compared; it emits every observable it predicts
-            if not names and c.kind in MODELLED_KINDS and not c.meta.get("model_silent_ok"):
+            if not names and is_modelled(c) and not c.meta.get("model_silent_ok"):
                 diffs.append({"case": c.id, "name": "model_silent", "lib": "", "model": "<the extracted model emitted nothing for a modelled kind>"})
             for name in names:
                 if name in ("harness_panic", "runner_exception"):
